@@ -95,6 +95,19 @@ template <class T> struct problem {
     std::vector<W> f, x0, xstar;
     std::vector<ptrdiff_t> ptr, col; std::vector<T> val;   // A as CRS in working precision
     std::vector<T> fd, x0d, Pd;
+    // variable preconditioner (FGMRES only): the c-th application of a solve is  z = D_c (P v)  with the
+    // diagonal scaling D_c = vscale[c]; deterministic, different on every application
+    bool variableP = false;
+    std::vector<std::vector<T>> vscale;
+    void make_variable(int napply) {
+        variableP = true; vscale.assign(napply, std::vector<T>(n));
+        for (int c = 0; c < napply; ++c) for (int i = 0; i < n; ++i) {
+            double mag = 1.0 + 0.5 * std::sin(1.3 * c + 0.7 * i + 0.2), arg = 0.6 * std::sin(0.9 * c + 1.1 * i);
+            vscale[c][i] = vphase(T(mag), arg);
+        }
+    }
+    static double vphase(double m, double) { return m; }
+    static std::complex<double> vphase(std::complex<double> m, double a) { return m * std::polar(1.0, a); }
     void finish() {
         ptr.assign(1, 0); col.clear(); val.clear();
         for (int i = 0; i < n; ++i) { for (int j = 0; j < n; ++j) if (A(i, j) != W(0)) { col.push_back(j); val.push_back(narrow(A(i, j))); } ptr.push_back(col.size()); }
@@ -109,11 +122,13 @@ template <class T> struct problem {
 
 // dense preconditioner handed to the real solvers
 template <class T> struct dprec {
-    int n; const std::vector<T> *Pd; bool identity; mutable long count = 0;
+    int n; const std::vector<T> *Pd; bool identity; const std::vector<std::vector<T>> *vscale = 0;
+    mutable long count = 0;      // applications since the start of the current solve
     template <class V1, class V2> void apply(const V1 &rhs, V2 &&x) const {
+        if (identity) { for (int i = 0; i < n; ++i) x[i] = rhs[i]; }
+        else for (int i = 0; i < n; ++i) { T s(0); for (int j = 0; j < n; ++j) s += (*Pd)[(size_t)i * n + j] * rhs[j]; x[i] = s; }
+        if (vscale) { const std::vector<T> &d = (*vscale)[std::min<size_t>(count, vscale->size() - 1)]; for (int i = 0; i < n; ++i) x[i] = d[i] * x[i]; }
         ++count;
-        if (identity) { for (int i = 0; i < n; ++i) x[i] = rhs[i]; return; }
-        for (int i = 0; i < n; ++i) { T s(0); for (int j = 0; j < n; ++j) s += (*Pd)[(size_t)i * n + j] * rhs[j]; x[i] = s; }
     }
 };
 
@@ -129,7 +144,7 @@ template <class T, class Solver, class Prm, class Body>
 void with_object(const problem<T> &pb, const Prm &prm, Body &&body) {
     int n = pb.n;
     amgcl::backend::crs<T> A(std::tie(n, pb.ptr, pb.col, pb.val));
-    dprec<T> P{pb.n, &pb.Pd, pb.identityP};
+    dprec<T> P{pb.n, &pb.Pd, pb.identityP, pb.variableP ? &pb.vscale : 0};
     std::shared_ptr<Solver> S;
     std::string ctor_exc;
     try { S = std::make_shared<Solver>(pb.n, prm); } catch (const std::exception &e) { ctor_exc = e.what(); }
@@ -138,7 +153,7 @@ void with_object(const problem<T> &pb, const Prm &prm, Body &&body) {
         if (!S) { r.ok = false; r.exc = ctor_exc; return r; }
         try {
             S->prm.maxiter = maxiter; S->prm.tol = tol;
-            x = x0;
+            x = x0; P.count = 0;
             std::tie(r.it, r.rep) = (*S)(A, P, f, x);
             for (auto &v : x) if (!std::isfinite(std::abs(v))) r.finite = false;
             if (!std::isfinite(r.rep)) r.finite = false;
@@ -270,6 +285,52 @@ template <class W> iterates<W> ref_gmres(const dmat<W> &A, const dmat<W> &P, con
     }
     return out;
 }
+// flexible GMRES (Saad 1993) with the variable preconditioner z_c = D_c (P v_c), c = number of the
+// application since the start of the solve (continues across restarts): x = x_start + Z y, where y
+// minimises || beta e1 - H y ||, A Z = V H.  AZ (optional) receives the vectors A z_c of the first cycle.
+template <class W> iterates<W> ref_fgmres_var(const dmat<W> &A, const dmat<W> &P, const std::vector<std::vector<W>> &D,
+        const std::vector<W> &f, const std::vector<W> &x0, int K, int M, std::vector<std::vector<W>> *AZ = 0) {
+    iterates<W> out; int n = f.size();
+    std::vector<W> x = x0; size_t c = 0; bool first = true;
+    while ((int)out.size() < K) {
+        std::vector<W> g = sub(f, mul(A, x));
+        ld beta = nrm(g);
+        if (beta == 0) break;
+        int m = std::min(M, K - (int)out.size());
+        std::vector<std::vector<W>> V(1, g), Z; for (auto &v : V[0]) v /= W(beta);
+        std::vector<std::vector<W>> H(m, std::vector<W>(m + 1, W(0)));
+        std::vector<W> xc = x;
+        for (int j = 0; j < m; ++j, ++c) {
+            std::vector<W> z = mul(P, V[j]);
+            const std::vector<W> &d = D[std::min(c, D.size() - 1)];
+            for (int i = 0; i < n; ++i) z[i] = d[i] * z[i];
+            Z.push_back(z);
+            std::vector<W> w = mul(A, z);
+            if (first && AZ) AZ->push_back(w);
+            for (int pass = 0; pass < 2; ++pass)
+                for (int i = 0; i <= j; ++i) { W h = dot(w, V[i]); H[j][i] += h; w = axpy(-h, V[i], w); }
+            ld hn = nrm(w); H[j][j + 1] = W(hn);
+            bool lucky = hn < 1e-25L * beta;
+            if (!lucky) for (auto &v : w) v /= W(hn);
+            V.push_back(w);
+            EMat<W> Hm = EMat<W>::Zero(j + 2, j + 1);
+            for (int cc = 0; cc <= j; ++cc) for (int i = 0; i <= cc + 1; ++i) Hm(i, cc) = H[cc][i];
+            EVec<W> rhs = EVec<W>::Zero(j + 2); rhs(0) = W(beta);
+            EVec<W> y = Hm.householderQr().solve(rhs);
+            xc = x; for (int cc = 0; cc <= j; ++cc) xc = axpy(W(y(cc)), Z[cc], xc);
+            out.push_back(xc);
+            if (lucky) { while ((int)out.size() < K) out.push_back(xc); return out; }
+        }
+        x = xc; first = false;
+    }
+    return out;
+}
+template <class T> std::vector<std::vector<typename wide<T>::type>> wide_scale(const problem<T> &pb) {
+    typedef typename wide<T>::type W;
+    std::vector<std::vector<W>> D(pb.vscale.size(), std::vector<W>(pb.n));
+    for (size_t c = 0; c < D.size(); ++c) for (int i = 0; i < pb.n; ++i) D[c][i] = W(pb.vscale[c][i]);
+    return D;
+}
 template <class W> iterates<W> ref_richardson(const dmat<W> &A, const dmat<W> &P, const std::vector<W> &f, const std::vector<W> &x0, int K, ld omega) {
     iterates<W> out; std::vector<W> x = x0;
     for (int k = 0; k < K; ++k) { x = axpy(W(omega), mul(P, sub(f, mul(A, x))), x); out.push_back(x); }
@@ -326,6 +387,7 @@ void compare_with_reference(const problem<T> &pb, const cfg &c, int K, const cha
     if (c.method == "cg") R = ref_cg(pb.A, pb.P, pb.f, pb.x0, K);
     else if (c.method == "bicgstab" || c.method == "bicgstabl") R = ref_bicgstab(pb.A, pb.P, pb.f, pb.x0, K, left);
     else if (c.method == "gmres") R = ref_gmres(pb.A, pb.P, pb.f, pb.x0, K, c.M, left);
+    else if (c.method == "fgmres" && pb.variableP) R = ref_fgmres_var(pb.A, pb.P, wide_scale(pb), pb.f, pb.x0, K, c.M);
     else if (c.method == "fgmres") R = ref_gmres(pb.A, pb.P, pb.f, pb.x0, K, c.M, false);
     else if (c.method == "lgmres") R = ref_gmres(pb.A, pb.P, pb.f, pb.x0, K, c.M + c.K, left);    // first cycle: no augmentation vectors yet
     else if (c.method == "richardson") R = ref_richardson(pb.A, pb.P, pb.f, pb.x0, K, (ld)c.damping);
@@ -333,7 +395,7 @@ void compare_with_reference(const problem<T> &pb, const cfg &c, int K, const cha
     ld kap = cond2(left ? mul(pb.P, pb.A) : mul(pb.A, pb.P));
     vr::obj o;
     o.str("k", "ref").str("method", c.method).str("side", c.side).str("vt", vt).str("kind", kind).i("id", id)
-     .i("n", pb.n).i("M", c.M).i("L", c.L).i("s", c.s).i("K", c.K).i("idP", pb.identityP).i("cond", md(kap));
+     .i("n", pb.n).i("M", c.M).i("L", c.L).i("s", c.s).i("K", c.K).i("idP", pb.identityP).i("var", pb.variableP).i("cond", md(kap));
     std::vector<long> errs, its; int nexc = 0, nnan = 0; std::string exc;
     for (int k = 1; k <= (int)R.size(); ++k) {
         std::vector<T> x;
@@ -352,6 +414,7 @@ void compare_with_reference(const problem<T> &pb, const cfg &c, int K, const cha
     if (c.method == "cg") R2 = ref_cg(pb.A, pb.P, f2, x2, K);
     else if (c.method == "bicgstab" || c.method == "bicgstabl") R2 = ref_bicgstab(pb.A, pb.P, f2, x2, K, left);
     else if (c.method == "gmres") R2 = ref_gmres(pb.A, pb.P, f2, x2, K, c.M, left);
+    else if (c.method == "fgmres" && pb.variableP) R2 = ref_fgmres_var(pb.A, pb.P, wide_scale(pb), f2, x2, K, c.M);
     else if (c.method == "fgmres") R2 = ref_gmres(pb.A, pb.P, f2, x2, K, c.M, false);
     else if (c.method == "lgmres") R2 = ref_gmres(pb.A, pb.P, f2, x2, K, c.M + c.K, left);
     else if (c.method == "richardson") R2 = ref_richardson(pb.A, pb.P, f2, x2, K, (ld)c.damping);
@@ -415,6 +478,15 @@ template <class T> void mode_ref_type(vr::rng &g, const char *vt, int reps) {
         for (int sd = 0; sd < 2; ++sd) { cfg c; c.method = "lgmres"; c.side = sd ? "left" : "right"; c.M = g.range(2, 6); c.K = g.range(0, 3); cs.push_back(c); }
         for (auto &c : cs) compare_with_reference(pb, c, c.method == "lgmres" ? std::min(K, c.M + c.K) : K, vt, "shift", ++g_id);
     }
+    // FGMRES with a VARIABLE preconditioner (a different operator on every application): the flexible
+    // GMRES reference; restarts included
+    for (int rep = 0; rep < reps; ++rep) for (int n : {6, 12, 20, 33}) for (int sym = 0; sym < 2; ++sym) for (int pk = 0; pk < 3; pk += 2) {
+        problem<T> pb = make_problem<T>(g, n, sym, pk);
+        pb.make_variable(40);
+        int K = std::min(n, 14);
+        static const int MS[4] = {1, 2, 4, 30};
+        for (int mi = 0; mi < 4; ++mi) { cfg c; c.method = "fgmres"; c.M = MS[mi]; compare_with_reference(pb, c, K, vt, sym ? "sym-varP" : "nonsym-varP", ++g_id); }
+    }
 }
 
 // ------------------------------------------------------------------ mode prop
@@ -463,11 +535,15 @@ template <class T> void prop_minres(const problem<T> &pb, const cfg &c, const ch
     int K = std::min(std::min(n, 12), cyc);
     dmat<W> B = left ? mul(pb.P, pb.A) : mul(pb.A, pb.P);
     std::vector<W> r0 = sub(pb.f, mul(pb.A, pb.x0)), g = left ? mul(pb.P, r0) : r0;
-    auto V = krylov_basis(B, g, K);
+    // the vectors whose span (times B, resp. directly) the residual is minimised over: an orthonormal
+    // Krylov basis, or - variable preconditioner - the vectors A z_c of the flexible GMRES reference run
+    std::vector<std::vector<W>> V, AZ;
+    if (pb.variableP) { ref_fgmres_var(pb.A, pb.P, wide_scale(pb), pb.f, pb.x0, K, 1000, &AZ); V = AZ; }
+    else V = krylov_basis(B, g, K);
     ld fn = nrm(pb.f);
     std::vector<long> gap, orth, reps, its; ld prev = -1, inc = 0; int nbad = 0;
     for (int k = 1; k <= (int)V.size(); ++k) {
-        EMat<W> Wm(n, k); for (int j = 0; j < k; ++j) { std::vector<W> w = mul(B, V[j]); for (int i = 0; i < n; ++i) Wm(i, j) = w[i]; }
+        EMat<W> Wm(n, k); for (int j = 0; j < k; ++j) { std::vector<W> w = pb.variableP ? AZ[j] : mul(B, V[j]); for (int i = 0; i < n; ++i) Wm(i, j) = w[i]; }
         EVec<W> ge = to_eigen(g);
         EVec<W> y = Wm.householderQr().solve(ge);
         ld minres = (ld)(ge - Wm * y).norm();
@@ -484,7 +560,7 @@ template <class T> void prop_minres(const problem<T> &pb, const cfg &c, const ch
         prev = r.rep;
     }
     vr::obj o; o.str("k", "minres").str("method", c.method).str("side", c.side).str("vt", vt).i("id", id).i("n", n).i("M", c.M).i("K", c.K)
-        .i("idP", pb.identityP).i("cond", md(cond2(B))).ints("gap", gap).ints("orth", orth).ints("rep", reps).ints("it", its).i("inc", md(inc)).i("nbad", nbad).i("dim", (long)V.size());
+        .i("idP", pb.identityP).i("var", pb.variableP).i("cond", md(cond2(B))).ints("gap", gap).ints("orth", orth).ints("rep", reps).ints("it", its).i("inc", md(inc)).i("nbad", nbad).i("dim", (long)V.size());
     vr::emit(o.done());
 }
 // termination within n (+ n/s) iterations; exact preconditioner: one iteration
@@ -497,7 +573,7 @@ template <class T> void prop_termination(const problem<T> &pb, const cfg &c, con
         with_solver(pb, c, [&](solve_fn<T> &solve) { std::vector<T> y; solve(std::max(1, budget / 2), 1e-12, f2d, x2d, y); r = solve(budget, 1e-12, pb.fd, pb.x0d, x); });
     }
     vr::obj o; o.str("k", "term").str("method", c.method).str("side", c.side).str("vt", vt).str("prec", pk).i("id", id).i("n", pb.n)
-        .i("L", c.L).i("s", c.s).i("M", c.M).i("budget", budget).i("sym", sym).i("reuse", reuse).i("cond", md(cond2(pb.A)));
+        .i("L", c.L).i("s", c.s).i("M", c.M).i("budget", budget).i("sym", sym).i("reuse", reuse).i("var", pb.variableP).i("cond", md(cond2(pb.A)));
     if (!r.ok) { o.str("exc", r.exc); vr::emit(o.done()); return; }
     o.i("it", (long)r.it).i("nan", !r.finite);
     if (r.finite) {
@@ -522,6 +598,16 @@ template <class T> void mode_prop_type(vr::rng &g, const char *vt, int reps) {
             for (int sd = 0; sd < 2; ++sd) { cfg c; c.method = "gmres"; c.side = sd ? "left" : "right"; c.M = 30; prop_minres(pb, c, vt, ++g_id); }
             { cfg c; c.method = "fgmres"; c.M = 30; prop_minres(pb, c, vt, ++g_id); }
             for (int sd = 0; sd < 2; ++sd) { cfg c; c.method = "lgmres"; c.side = sd ? "left" : "right"; c.M = g.range(3, 9); c.K = g.range(1, 3); prop_minres(pb, c, vt, ++g_id); }
+        }
+        // FGMRES with a variable preconditioner: residual minimal over x0 + span{z_c}, monotone reported
+        // residual, solution after n steps (fresh and reused object)
+        for (int n : {5, 9, 16, 12}) for (int sym = 0; sym < 2; ++sym) for (int pk = 0; pk < 3; pk += 2) {
+            problem<T> pb = make_problem<T>(g, n, sym, pk, n == 12 ? 1.5L : 1.0L);
+            pb.make_variable(40);
+            cfg c; c.method = "fgmres"; c.M = 30;
+            prop_minres(pb, c, vt, ++g_id);
+            prop_termination(pb, c, vt, "variable", ++g_id, n, sym);
+            prop_termination(pb, c, vt, "variable", ++g_id, n, sym, /*reuse=*/true);
         }
         // termination: spread spectrum so that convergence before n steps is not automatic
         for (int n : {4, 7, 10, 12}) for (int sym = 0; sym < 2; ++sym) {
